@@ -132,7 +132,10 @@ def read_graph(graph_raw) -> nx.DiGraph:
     G.graph["m"] = G.number_of_edges()
     # Lazy import here to avoid circular import at module load time
     from flowpaths import stdigraph as _stdigraph  # type: ignore
-    G.graph["w"] = _stdigraph.stDiGraph(G).get_width()
+    # The width is defined only for graphs with at least one source and one sink
+    has_source = any(G.in_degree(v) == 0 for v in G.nodes())
+    has_sink = any(G.out_degree(v) == 0 for v in G.nodes())
+    G.graph["w"] = _stdigraph.stDiGraph(G).get_width() if (has_source and has_sink) else None
 
     return G
 
